@@ -181,7 +181,8 @@ fn call_parameters(
                 })?;
 
                 let arg_exp = Expected::new(*pos, arg);
-                let name = Name::from(&ctx.class(ty, *pos)?);
+                ctx.class(ty, *pos)?;
+                let name = ty.clone();
                 constr.add(
                     "call parameters",
                     &Expected::new(*pos, &Type { name }),
